@@ -512,6 +512,187 @@ theorem stale_samples_unsafe :
     ∃ s ∈ prefixStates oldDisk (toFilesOps false true 1 1 1), viewText s = .garbage := by
   exact ⟨(prefixStates oldDisk (toFilesOps false true 1 1 1))[2]'(by decide), List.getElem_mem _, by decide⟩
 
+/-! ### the write orders the translator reads off the code are accepted for ALL sizes -/
+
+theorem run_append (a b : List Op) : ∀ d, run d (a ++ b) = (run d a).bind fun d' => run d' b := by
+  induction a with
+  | nil => intro d; rfl
+  | cons op a ih =>
+    intro d
+    simp only [List.cons_append, run]
+    split
+    · exact ih _
+    · rfl
+
+theorem run_cons_allowed {d : Disk} {op : Op} {ops : List Op} (h : allowed d op = true) :
+    run d (op :: ops) = run (apply d op) ops := by simp [run, h]
+
+private theorem run_writeTrees (p : Nat) (b : Bin) (v : Ver) : ∀ (n : Nat) (d : Disk),
+    (d.pf p).marker = .absent → (d.pf p).trees = .part → (d.pf p).data = .full v →
+    ∃ d', run d (writes (n + 1) (Op.writeTrees p b)) = some d' ∧ (d'.pf p).trees = .full v b ∧
+      (d'.pf p).marker = .absent ∧ (d'.pf p).data = .full v := by
+  intro n
+  induction n with
+  | zero =>
+    intro d hm ht hd
+    refine ⟨apply d (.writeTrees p b true), ?_, ?_, ?_, ?_⟩
+    · simp [writes, run, allowed, hm, ht, dataVer, hd]
+    · simp [apply, setPF, dataVer, hd]
+    · simp [apply, setPF, hm]
+    · simp [apply, setPF, hd]
+  | succ n ih =>
+    intro d hm ht hd
+    have hal : allowed d (.writeTrees p b false) = true := by simp [allowed, hm, ht, dataVer, hd]
+    obtain ⟨d', hr, h1, h2, h3⟩ := ih (apply d (.writeTrees p b false))
+      (by simp [apply, setPF, hm]) (by simp [apply, setPF, dataVer, hd]) (by simp [apply, setPF, hd])
+    exact ⟨d', by simp only [writes, run, hal, ↓reduceIte]; exact hr, h1, h2, h3⟩
+
+private theorem run_writeMtmp (p : Nat) (b : Bin) : ∀ (n : Nat) (d : Disk),
+    ∃ d', run d (writes (n + 1) (Op.writeMtmp p b)) = some d' ∧ (d'.pf p).mtmp = .full b ∧
+      (d'.pf p).trees = (d.pf p).trees := by
+  intro n
+  induction n with
+  | zero =>
+    intro d
+    exact ⟨apply d (.writeMtmp p b true), by simp [writes, run, allowed], by simp [apply, setPF], by simp [apply, setPF]⟩
+  | succ n ih =>
+    intro d
+    obtain ⟨d', hr, h1, h2⟩ := ih (apply d (.writeMtmp p b false))
+    refine ⟨d', by simp only [writes, run, allowed, ↓reduceIte]; exact hr, h1, ?_⟩
+    rw [h2]; simp [apply, setPF]
+
+/-- `BinnedTrees.build` as generated (marker removed first, installed by rename): accepted by the
+    discipline for every number of write calls, whatever trees were cached before -/
+theorem build_accepted (d : Disk) (p : Nat) (b : Bin) (v : Ver) (nt nm : Nat) (hadMarker : Bool)
+    (hd : (d.pf p).data = .full v) (hm : hadMarker = false → (d.pf p).marker = .absent) :
+    (run d (buildOps Gen.markerInvalidatedFirst Gen.markerAtomic hadMarker p b (nt + 1) (nm + 1))).isSome = true := by
+  have hflags : Gen.markerInvalidatedFirst = true ∧ Gen.markerAtomic = true := ⟨rfl, rfl⟩
+  simp only [buildOps, hflags.1, hflags.2, Bool.true_and, ↓reduceIte]
+  -- state after the optional unlink: the marker is absent
+  obtain ⟨d1, hr1, hm1, hd1⟩ : ∃ d1, run d (if hadMarker = true then [Op.unlinkMarker p] else []) = some d1 ∧
+      (d1.pf p).marker = .absent ∧ (d1.pf p).data = .full v := by
+    cases hadMarker with
+    | true => exact ⟨apply d (.unlinkMarker p), by simp [run, allowed], by simp [apply, setPF], by simp [apply, setPF, hd]⟩
+    | false => exact ⟨d, by simp [run], hm rfl, hd⟩
+  have hal2 : allowed d1 (.creatTrees p) = true := by simp [allowed, hm1]
+  let d2 := apply d1 (.creatTrees p)
+  obtain ⟨d3, hr3, ht3, hm3, _⟩ := run_writeTrees p b v nt d2
+    (by simp [d2, apply, setPF, hm1]) (by simp [d2, apply, setPF]) (by simp [d2, apply, setPF, hd1])
+  let d4 := apply d3 (.creatMtmp p)
+  obtain ⟨d5, hr5, hmt5, htr5⟩ := run_writeMtmp p b nm d4
+  have htr5' : (d5.pf p).trees = .full v b := by rw [htr5]; simp [d4, apply, setPF, ht3]
+  have hal6 : allowed d5 (.renameMarker p) = true := by simp [allowed, hmt5, treesMatch, htr5']
+  have hlist : (if hadMarker = true then [Op.unlinkMarker p] else []) ++ [Op.creatTrees p] ++
+      writes (nt + 1) (Op.writeTrees p b) ++ ([Op.creatMtmp p] ++ writes (nm + 1) (Op.writeMtmp p b) ++ [Op.renameMarker p])
+      = (if hadMarker = true then [Op.unlinkMarker p] else []) ++ (Op.creatTrees p ::
+        (writes (nt + 1) (Op.writeTrees p b) ++ (Op.creatMtmp p :: (writes (nm + 1) (Op.writeMtmp p b) ++ [Op.renameMarker p])))) := by
+    simp [List.append_assoc]
+  rw [hlist]
+  have e1 := run_append (if hadMarker = true then [Op.unlinkMarker p] else []) (Op.creatTrees p ::
+        (writes (nt + 1) (Op.writeTrees p b) ++ (Op.creatMtmp p :: (writes (nm + 1) (Op.writeMtmp p b) ++ [Op.renameMarker p])))) d
+  rw [e1, hr1, Option.bind_some, run_cons_allowed hal2]
+  have e3 := run_append (writes (nt + 1) (Op.writeTrees p b))
+    (Op.creatMtmp p :: (writes (nm + 1) (Op.writeMtmp p b) ++ [Op.renameMarker p])) d2
+  rw [e3, hr3, Option.bind_some, run_cons_allowed (show allowed d3 (.creatMtmp p) = true by simp [allowed])]
+  have e5 := run_append (writes (nm + 1) (Op.writeMtmp p b)) [Op.renameMarker p] d4
+  rw [e5, hr5, Option.bind_some, run_cons_allowed hal6]
+  simp [run]
+
+/-- … hence every crash point of a (re)build, for any binning history, is safe -/
+theorem build_crash_safe (d : Disk) (hinv : Inv d) (p : Nat) (b : Bin) (v : Ver) (nt nm : Nat) (hadMarker : Bool)
+    (hd : (d.pf p).data = .full v) (hm : hadMarker = false → (d.pf p).marker = .absent) :
+    ∀ s ∈ prefixStates d (buildOps Gen.markerInvalidatedFirst Gen.markerAtomic hadMarker p b (nt + 1) (nm + 1)), Safe s := by
+  have hacc := build_accepted d p b v nt nm hadMarker hd hm
+  obtain ⟨dN, hN⟩ := Option.isSome_iff_exists.mp hacc
+  exact crash_safe _ d dN hinv hN
+
+private theorem run_writeItmp (v : Ver) (ps : List Nat) : ∀ (n : Nat) (d : Disk),
+    ∃ d', run d (writes (n + 1) (Op.writeItmp v ps)) = some d' ∧ d'.itmp = .full v ps ∧ d'.pf = d.pf := by
+  intro n
+  induction n with
+  | zero => intro d; exact ⟨apply d (.writeItmp v ps true), by simp [writes, run, allowed], by simp [apply], rfl⟩
+  | succ n ih =>
+    intro d
+    obtain ⟨d', hr, h1, h2⟩ := ih (apply d (.writeItmp v ps false))
+    exact ⟨d', by simp only [writes, run, allowed, ↓reduceIte]; exact hr, h1, by rw [h2]; rfl⟩
+
+/-- `CatalogWriter.finalize` as generated (id list written to a temporary file, then renamed): accepted
+    whenever the data files of the listed patches are complete -/
+theorem finalize_accepted (d : Disk) (v : Ver) (ps : List Nat) (n : Nat) (h : ∀ p ∈ ps, (d.pf p).data = .full v) :
+    (run d (finalizeOps Gen.idsAtomic v ps (n + 1))).isSome = true := by
+  have hflag : Gen.idsAtomic = true := rfl
+  simp only [finalizeOps, hflag, ↓reduceIte]
+  have hlist : [Op.creatItmp] ++ writes (n + 1) (Op.writeItmp v ps) ++ [Op.renameIds]
+      = Op.creatItmp :: (writes (n + 1) (Op.writeItmp v ps) ++ [Op.renameIds]) := by simp
+  rw [hlist, run_cons_allowed (show allowed d .creatItmp = true by simp [allowed])]
+  obtain ⟨d2, hr2, hi2, hpf2⟩ := run_writeItmp v ps n (apply d .creatItmp)
+  have hal : allowed d2 .renameIds = true := by
+    simp only [allowed, hi2, List.all_eq_true, beq_iff_eq]
+    intro p hp
+    rw [hpf2]
+    exact h p hp
+  rw [run_append, hr2, Option.bind_some, run_cons_allowed hal]
+  simp [run]
+
+theorem finalize_crash_safe (d : Disk) (hinv : Inv d) (v : Ver) (ps : List Nat) (n : Nat)
+    (h : ∀ p ∈ ps, (d.pf p).data = .full v) :
+    ∀ s ∈ prefixStates d (finalizeOps Gen.idsAtomic v ps (n + 1)), Safe s := by
+  obtain ⟨dN, hN⟩ := Option.isSome_iff_exists.mp (finalize_accepted d v ps n h)
+  exact crash_safe _ d dN hinv hN
+
+private theorem run_writeDat (v : Ver) : ∀ (n : Nat) (d : Disk), d.smp = .absent → d.dat = .part →
+    ∃ d', run d (writes (n + 1) (Op.writeDat v)) = some d' ∧ d'.dat = .full v ∧ d'.smp = .absent := by
+  intro n
+  induction n with
+  | zero =>
+    intro d hs hd
+    exact ⟨apply d (.writeDat v true), by simp [writes, run, allowed, hs, hd], by simp [apply], by simp [apply, hs]⟩
+  | succ n ih =>
+    intro d hs hd
+    have hal : allowed d (.writeDat v false) = true := by simp [allowed, hs, hd]
+    obtain ⟨d', hr, h1, h2⟩ := ih (apply d (.writeDat v false)) (by simp [apply, hs]) (by simp [apply])
+    exact ⟨d', by simp only [writes, run, hal, ↓reduceIte]; exact hr, h1, h2⟩
+
+private theorem run_writeSmp (v : Ver) : ∀ (n : Nat) (d : Disk), d.dat = .full v → d.smp = .part →
+    ∃ d', run d (writes (n + 1) Op.writeSmp) = some d' := by
+  intro n
+  induction n with
+  | zero =>
+    intro d hd hs
+    exact ⟨apply d (.writeSmp true), by simp [writes, run, allowed, hs, hd]⟩
+  | succ n ih =>
+    intro d hd hs
+    have hal : allowed d (.writeSmp false) = true := by simp [allowed, hs, hd]
+    obtain ⟨d', hr⟩ := ih (apply d (.writeSmp false)) (by simp [apply, hd]) (by simp [apply, hd])
+    exact ⟨d', by simp only [writes, run, hal, ↓reduceIte]; exact hr⟩
+
+/-- `to_files` as generated (older samples removed first): accepted over any earlier result -/
+theorem toFiles_accepted (d : Disk) (v : Ver) (nd ns : Nat) (hadSmp : Bool) (h : hadSmp = false → d.smp = .absent) :
+    (run d (toFilesOps Gen.smpInvalidatedFirst hadSmp v (nd + 1) (ns + 1))).isSome = true := by
+  have hflag : Gen.smpInvalidatedFirst = true := rfl
+  simp only [toFilesOps, hflag, Bool.true_and]
+  obtain ⟨d1, hr1, hs1⟩ : ∃ d1, run d (if hadSmp = true then [Op.unlinkSmp] else []) = some d1 ∧ d1.smp = .absent := by
+    cases hadSmp with
+    | true => exact ⟨apply d .unlinkSmp, by simp [run, allowed], by simp [apply]⟩
+    | false => exact ⟨d, by simp [run], h rfl⟩
+  have hlist : (if hadSmp = true then [Op.unlinkSmp] else []) ++ [Op.creatDat] ++ writes (nd + 1) (Op.writeDat v) ++
+      [Op.creatSmp] ++ writes (ns + 1) Op.writeSmp
+      = (if hadSmp = true then [Op.unlinkSmp] else []) ++ (Op.creatDat :: (writes (nd + 1) (Op.writeDat v) ++
+        (Op.creatSmp :: writes (ns + 1) Op.writeSmp))) := by simp [List.append_assoc]
+  rw [hlist, run_append, hr1, Option.bind_some,
+    run_cons_allowed (show allowed d1 .creatDat = true by simp [allowed, hs1])]
+  obtain ⟨d3, hr3, hd3, hs3⟩ := run_writeDat v nd (apply d1 .creatDat) (by simp [apply, hs1]) (by simp [apply])
+  rw [run_append, hr3, Option.bind_some,
+    run_cons_allowed (show allowed d3 .creatSmp = true by simp [allowed, hd3])]
+  obtain ⟨d5, hr5⟩ := run_writeSmp v ns (apply d3 .creatSmp) (by simp [apply, hd3]) (by simp [apply])
+  rw [hr5]; rfl
+
+theorem toFiles_crash_safe (d : Disk) (hinv : Inv d) (v : Ver) (nd ns : Nat) (hadSmp : Bool)
+    (h : hadSmp = false → d.smp = .absent) :
+    ∀ s ∈ prefixStates d (toFilesOps Gen.smpInvalidatedFirst hadSmp v (nd + 1) (ns + 1)), Safe s := by
+  obtain ⟨dN, hN⟩ := Option.isSome_iff_exists.mp (toFiles_accepted d v nd ns hadSmp h)
+  exact crash_safe _ d dN hinv hN
+
 /-- the model's abstraction of file-system glue is tied to the source by fingerprints -/
 theorem glue_pinned :
     Gen.pinFinalizeCr = "cb7ae89b7341577a" ∧ Gen.pinReadPatchIdsCr = "4b1dd1914028537d" ∧
